@@ -211,6 +211,18 @@ def make_riscv(mode="single", hz=True, dcache=None, icache=None):
     return sim
 
 
+def make_riscv_at(mode, ibase, hz=True, dcache=None, size=0x3000):
+    """a simulation whose instruction memory was given another address range (public constructor arguments): the
+    program is placed, and execution starts, at the first address of that range"""
+    from architecture_simulator.simulation.riscv_simulation import RiscvSimulation
+    from architecture_simulator.uarch.riscv.riscv_architectural_state import RiscvArchitecturalState
+    from architecture_simulator.uarch.memory.instruction_memory import InstructionMemory
+
+    pm = "".join(list("five_stage_pipeline" if mode == "five" else "single_stage_pipeline"))
+    st = RiscvArchitecturalState(pipeline_mode=pm, detect_data_hazards=hz, instruction_memory=InstructionMemory(address_range=range(ibase, ibase + size)), data_cache_options=cache_options(dcache))
+    return RiscvSimulation(state=st, mode=pm)
+
+
 def build_instr(d, addr=0):
     """instruction description dict -> real instruction object (constructed directly, no assembler)."""
     from architecture_simulator.isa.riscv.rv32i_instructions import instruction_map
